@@ -12,6 +12,13 @@ Definition veq : vec -> vec -> Prop := Forall2 Qeq.
 Definition meq : mat -> mat -> Prop := Forall2 veq.
 Definition cols_len (n : nat) (B : mat) : Prop := Forall (fun c => length c = n) B.
 
+Lemma qmul_eq : forall a b, qmul a b = a * b.
+Proof.
+  intros [an ad] [bn bd]. unfold qmul, Qmult, zmul_s, pmul_s. simpl.
+  destruct (Z.log2 (Z.abs an) <=? Z.log2 (Z.abs bn))%Z; destruct (Pos.size_nat ad <=? Pos.size_nat bd)%nat;
+    f_equal; auto using Z.mul_comm, Pos.mul_comm.
+Qed.
+
 Ltac inv_cols H Hc Ht :=
   pose proof (Forall_inv H) as Hc; pose proof (Forall_inv_tail H) as Ht; simpl in Hc.
 
@@ -129,12 +136,12 @@ Proof.
 Qed.
 
 Lemma vscale_veq : forall a a' v v', a == a' -> veq v v' -> veq (vscale a v) (vscale a' v').
-Proof. intros a a' v v' Ha H. induction H; simpl; constructor; auto. rewrite Ha, H. reflexivity. Qed.
+Proof. intros a a' v v' Ha H. induction H; simpl; constructor; auto. rewrite !qmul_eq, Ha, H. reflexivity. Qed.
 
 Lemma dot_veq : forall x x' y y', veq x x' -> veq y y' -> dot x y == dot x' y'.
 Proof.
   intros x x' y y' H; revert y y'. induction H; intros y0 y0' Hy; simpl. reflexivity.
-  inversion Hy; subst. reflexivity. rewrite H, H1, (IHForall2 _ _ H2). reflexivity.
+  inversion Hy; subst. reflexivity. rewrite !qmul_eq, H, H1, (IHForall2 _ _ H2). reflexivity.
 Qed.
 
 Lemma mat_vec_veq : forall n B x x', veq x x' -> veq (mat_vec n B x) (mat_vec n B x').
@@ -167,12 +174,12 @@ Proof. reflexivity. Qed.
 
 Lemma vadd_zero_r : forall x n, length x = n -> veq (vadd x (vzero n)) x.
 Proof.
-  induction x; intros n H; destruct n; simpl in *; try discriminate; constructor. ring. apply IHx. lia.
+  induction x; intros n H; destruct n; simpl in *; try discriminate; constructor. rewrite ?qmul_eq; ring. apply IHx. lia.
 Qed.
 
 Lemma vadd_zero_l : forall x n, length x = n -> veq (vadd (vzero n) x) x.
 Proof.
-  induction x; intros n H; destruct n; simpl in *; try discriminate; constructor. ring. apply IHx. lia.
+  induction x; intros n H; destruct n; simpl in *; try discriminate; constructor. rewrite ?qmul_eq; ring. apply IHx. lia.
 Qed.
 
 Lemma vadd_interchange : forall p q r s, veq (vadd (vadd p q) (vadd r s)) (vadd (vadd p r) (vadd q s)).
@@ -180,26 +187,26 @@ Proof.
   induction p; intros q r s; simpl. constructor.
   destruct q; simpl. destruct r; simpl; constructor.
   destruct r; simpl. constructor. destruct s; simpl. constructor.
-  constructor. ring. apply IHp.
+  constructor. rewrite ?qmul_eq; ring. apply IHp.
 Qed.
 
 Lemma vscale_vadd : forall a x y, veq (vscale a (vadd x y)) (vadd (vscale a x) (vscale a y)).
-Proof. induction x; destruct y; simpl; constructor. ring. apply IHx. Qed.
+Proof. induction x; destruct y; simpl; constructor. rewrite ?qmul_eq; ring. apply IHx. Qed.
 
 Lemma vscale_plus : forall a b x, veq (vscale (a + b) x) (vadd (vscale a x) (vscale b x)).
-Proof. induction x; simpl; constructor. ring. auto. Qed.
+Proof. induction x; simpl; constructor. rewrite ?qmul_eq; ring. auto. Qed.
 
 Lemma vscale_vscale : forall a b x, veq (vscale (a * b) x) (vscale a (vscale b x)).
-Proof. induction x; simpl; constructor. ring. auto. Qed.
+Proof. induction x; simpl; constructor. rewrite ?qmul_eq; ring. auto. Qed.
 
 Lemma vscale_vzero : forall a n, veq (vscale a (vzero n)) (vzero n).
-Proof. induction n; simpl; constructor. ring. auto. Qed.
+Proof. induction n; simpl; constructor. rewrite ?qmul_eq; ring. auto. Qed.
 
 Lemma vscale_0 : forall x, veq (vscale 0 x) (vzero (length x)).
-Proof. induction x; simpl; constructor. ring. auto. Qed.
+Proof. induction x; simpl; constructor. rewrite ?qmul_eq; ring. auto. Qed.
 
 Lemma vscale_1 : forall x, veq (vscale 1 x) x.
-Proof. induction x; simpl; constructor. ring. auto. Qed.
+Proof. induction x; simpl; constructor. rewrite ?qmul_eq; ring. auto. Qed.
 
 (* ------------------------------------------------------------------ *)
 (* linearity of mat_vec, associativity, identity                       *)
@@ -223,7 +230,7 @@ Proof.
   - destruct x as [|b x]; simpl.
     + apply veq_sym. apply vscale_vzero.
     + eapply veq_trans; [| apply veq_sym; apply vscale_vadd].
-      apply vadd_veq. apply vscale_vscale. apply IH.
+      apply vadd_veq. rewrite qmul_eq. apply vscale_vscale. apply IH.
 Qed.
 
 Lemma mat_vec_vzero : forall n A m, cols_len n A -> veq (mat_vec n A (vzero m)) (vzero n).
@@ -256,7 +263,7 @@ Proof.
     with (vadd (vscale a (0 :: c)) (mat_vec (S n) (map (cons 0) M) x)).
   change (mat_vec n (c :: M) (a :: x)) with (vadd (vscale a c) (mat_vec n M x)).
   eapply veq_trans. apply vadd_veq. apply veq_refl. apply IH.
-  simpl. constructor. ring. apply veq_refl.
+  simpl. constructor. rewrite ?qmul_eq; ring. apply veq_refl.
 Qed.
 
 Lemma mat_vec_ident : forall n x, length x = n -> veq (mat_vec n (ident n) x) x.
@@ -265,7 +272,7 @@ Proof.
   change (mat_vec (S n) (ident (S n)) (a :: x))
     with (vadd (vscale a (1 :: vzero n)) (mat_vec (S n) (map (cons 0) (ident n)) x)).
   eapply veq_trans. apply vadd_veq. apply veq_refl. apply mat_vec_cons0.
-  simpl. constructor. ring.
+  simpl. constructor. rewrite ?qmul_eq; ring.
   eapply veq_trans. apply vadd_veq. apply vscale_vzero. apply IHn. lia.
   apply vadd_zero_l. lia.
 Qed.
@@ -274,23 +281,23 @@ Qed.
 (* the transposed side                                                 *)
 (* ------------------------------------------------------------------ *)
 Lemma dot_vzero_r : forall x n, dot x (vzero n) == 0.
-Proof. induction x; intros [|n]; simpl; try reflexivity. rewrite IHx. ring. Qed.
+Proof. induction x; intros [|n]; simpl; try reflexivity. rewrite IHx. rewrite ?qmul_eq; ring. Qed.
 
 Lemma dot_vadd_r : forall x y z, length y = length z -> dot x (vadd y z) == dot x y + dot x z.
 Proof.
-  induction x; intros y z H; destruct y; destruct z; simpl in *; try discriminate; try ring.
-  rewrite IHx. ring. lia.
+  induction x; intros y z H; destruct y; destruct z; simpl in *; try discriminate; try (rewrite ?qmul_eq; ring).
+  rewrite IHx. rewrite ?qmul_eq; ring. lia.
 Qed.
 
 Lemma dot_vscale_r : forall a x y, dot x (vscale a y) == a * dot x y.
-Proof. induction x; destruct y; simpl; try ring. rewrite IHx. ring. Qed.
+Proof. induction x; destruct y; simpl; try (rewrite ?qmul_eq; ring). rewrite IHx. rewrite ?qmul_eq; ring. Qed.
 
 Lemma dot_vec_mat : forall n B x c, cols_len n B -> dot (vec_mat x B) c == dot x (mat_vec n B c).
 Proof.
   induction B as [|b B IH]; intros x c HB; simpl.
   - rewrite dot_vzero_r. reflexivity.
   - destruct c as [|c0 c]. rewrite dot_vzero_r. reflexivity.
-    inv_cols HB Hc HB'. rewrite dot_vadd_r. rewrite dot_vscale_r. unfold vec_mat in IH. rewrite (IH x c); auto. ring.
+    inv_cols HB Hc HB'. rewrite dot_vadd_r. rewrite dot_vscale_r. unfold vec_mat in IH. rewrite (IH x c); auto. rewrite ?qmul_eq; ring.
     rewrite length_vscale, length_mat_vec; auto.
 Qed.
 
@@ -304,10 +311,10 @@ Qed.
 Lemma vec_mat_ident : forall n x, length x = n -> veq (vec_mat x (ident n)) x.
 Proof.
   induction n; intros x H; destruct x as [|a x]; simpl in *; try discriminate. constructor.
-  constructor. rewrite dot_vzero_r. ring.
+  constructor. rewrite dot_vzero_r. rewrite ?qmul_eq; ring.
   unfold vec_mat in *. rewrite map_map.
   eapply veq_trans; [| apply (IHn x); lia].
-  apply map_veq. intros c. simpl. ring.
+  apply map_veq. intros c. simpl. rewrite ?qmul_eq; ring.
 Qed.
 
 (* ------------------------------------------------------------------ *)
@@ -501,10 +508,10 @@ Lemma length_set_nth : forall x k a, length (set_nth x k a) = length x.
 Proof. induction x; intros [|k] a0; simpl; auto. Qed.
 
 Lemma vadd_comm : forall p q, veq (vadd p q) (vadd q p).
-Proof. induction p; destruct q; simpl; constructor. ring. apply IHp. Qed.
+Proof. induction p; destruct q; simpl; constructor. rewrite ?qmul_eq; ring. apply IHp. Qed.
 
 Lemma vadd_assoc : forall p q r, veq (vadd p (vadd q r)) (vadd (vadd p q) r).
-Proof. induction p; destruct q; destruct r; simpl; constructor. ring. apply IHp. Qed.
+Proof. induction p; destruct q; destruct r; simpl; constructor. rewrite ?qmul_eq; ring. apply IHp. Qed.
 
 Lemma replace_col_mat_vec : forall n B k v x, cols_len n B -> length v = n -> length x = length B -> (k < length B)%nat ->
   veq (mat_vec n (replace_col B k v) x) (vadd (mat_vec n B (set_nth x k 0)) (vscale (nth k x 0) v)).
@@ -625,9 +632,9 @@ Proof.
   - destruct k; reflexivity.
   - destruct k; simpl.
     + assert (E : dot (vzero n) x == 0).
-      { clear. revert x. induction n; destruct x; simpl; try reflexivity. rewrite IHn. ring. }
-      rewrite E. ring.
-    + rewrite IHn by lia. ring.
+      { clear. revert x. induction n; destruct x; simpl; try reflexivity. rewrite IHn. rewrite ?qmul_eq; ring. }
+      rewrite E. rewrite ?qmul_eq; ring.
+    + rewrite IHn by lia. rewrite ?qmul_eq; ring.
 Qed.
 
 Lemma mat_vec_unit_vec_gen : forall n M m k, cols_len n M -> length M = m -> (k < m)%nat ->
@@ -758,7 +765,7 @@ Qed.
 
 (* forward error: the error of an approximate solution is the certified inverse applied to its residual *)
 Lemma vsub_vadd_cancel : forall p q, length p = length q -> veq (vadd q (vsub p q)) p.
-Proof. induction p; destruct q; simpl; intros; try discriminate; constructor. ring. apply IHp. lia. Qed.
+Proof. induction p; destruct q; simpl; intros; try discriminate; constructor. rewrite ?qmul_eq; ring. apply IHp. lia. Qed.
 
 Lemma forward_error_lemma : forall n B Binv x b, regular_cert n B Binv = true -> length x = n -> length b = n ->
   Forall2 Qeq x (vadd (mat_vec n Binv b) (mat_vec n Binv (residual_right n B x b))).
@@ -822,11 +829,11 @@ Proof.
     + apply veq_sym. apply vscale_vzero.
     + eapply veq_trans; [| apply veq_sym; apply vscale_vadd].
       apply vadd_veq; [| apply IH].
-      clear. induction c; simpl; constructor. ring. auto.
+      clear. induction c; simpl; constructor. rewrite ?qmul_eq; ring. auto.
 Qed.
 
 Lemma vscale_inv_cancel : forall d v, ~ d == 0 -> veq (vscale (/ d) (vscale d v)) v.
-Proof. intros d v Hd. induction v; simpl; constructor; auto. field. auto. Qed.
+Proof. intros d v Hd. induction v; simpl; constructor; auto. rewrite ?qmul_eq. field. auto. Qed.
 
 Lemma cols_len_mscale : forall n a A, cols_len n A -> cols_len n (mscale a A).
 Proof.
